@@ -229,6 +229,7 @@ func modeConc(cfg hlib.Config, o *hlib.Out) {
 		{"lin", 400, 6000},       // recorded histories for the linearizability check
 		{"interp", 25, 150},      // the real Interp: nested Eval/_eval against a free-running interrupt channel
 		{"crs", 200, 2000},       // ctxreadseeker: cancellation while the underlying read is in flight
+		{"blocked", 12, 120},     // evaluation blocked reading a stalled stdin, interrupt around it
 		{"bridge", 30, 300},      // cli signal bridge with real SIGINT
 	}
 	gmps := []int{1, 2, 4}
@@ -718,6 +719,88 @@ func scenInterp(seed uint64, iters int, o *wout) {
 	o.stat("interrupts", int(sent.Load()))
 }
 
+// ---- blocked: an evaluation blocked reading a stalled, non-seekable stdin; one interrupt at a
+// random moment around the start of the evaluation, one after the read is known to be blocked: the
+// evaluation must come back cancelled (never hang), under the race detector.
+
+type freeBos struct{ *bos }
+
+func (o freeBos) InterruptChan() chan struct{} { return o.ch }
+
+func scenBlocked(seed uint64, iters int, o *wout) {
+	rnd := hlib.NewRand(seed)
+	cancelled, early := 0, 0
+	for it := 0; it < iters; it++ {
+		b := newBlocker("read", 1+rnd.Intn(3))
+		osv := freeBos{newBos(&bfile{b: b, data: blockedData}, nil, nil)}
+		i, err := interp.New(osv, interp.DefaultRegistry)
+		if err != nil {
+			o.fail("interp.New: %v", err)
+			return
+		}
+		res := make(chan string, 1)
+		go func() {
+			iter, err := i.Eval(context.Background(), nil, `try (_eval("null | open | tobytes | length"; {})) catch "caught"`, interp.VerifC20EvalOpts(&sink{}))
+			if err != nil {
+				res <- "evalerr:" + err.Error()
+				return
+			}
+			v, ok := iter.Next()
+			res <- describe(v, ok)
+		}()
+		send := func() bool {
+			select {
+			case osv.ch <- struct{}{}:
+				return true
+			case <-time.After(blockedWait):
+				return false
+			}
+		}
+		d := time.Duration(rnd.Intn(200000)) * time.Microsecond
+		var got string
+		select {
+		case got = <-res:
+		case <-b.blockedCh:
+		case <-time.After(d):
+			early++
+			send() // somewhere between New and the blocked read: cancels whatever is innermost then
+			select {
+			case got = <-res:
+			case <-b.blockedCh:
+			case <-time.After(blockedWait):
+				o.fail("evaluation neither finished nor reached the read of stdin (iteration %d)", it)
+				return
+			}
+		}
+		if got == "" {
+			// blocked in the read now
+			if !send() {
+				o.fail("interrupt could not be delivered while the evaluation was blocked (iteration %d)", it)
+				return
+			}
+			select {
+			case got = <-res:
+			case <-time.After(blockedWait):
+				o.fail("evaluation blocked reading stdin still stuck %s after the interrupt (iteration %d)", blockedWait, it)
+				b.release()
+				return
+			}
+		}
+		if got != "caught" && got != "ctxerr" {
+			o.fail("evaluation interrupted around a blocked read of stdin ended with %q (iteration %d)", got, it)
+			b.release()
+			return
+		}
+		cancelled++
+		b.release()
+		i.Stop()
+		close(osv.quit)
+		iterDone()
+	}
+	o.stat("cancelled", cancelled)
+	o.stat("early_interrupts", early)
+}
+
 // ---- crs: ctxreadseeker, cancellation (by a real interrupt on a real stack) while the
 // underlying read is in flight. The caller does not touch its buffer after a cancelled read.
 
@@ -882,6 +965,8 @@ func workerMain(args []string) {
 		scenInterp(seed, iters, o)
 	case "crs":
 		scenCrs(seed, iters, o)
+	case "blocked":
+		scenBlocked(seed, iters, o)
 	case "bridge":
 		scenBridge(seed, iters, o)
 	default:
